@@ -7,9 +7,12 @@ particular in every reachable store. -/
 namespace Raven.Props.C11
 open Raven Raven.Mail Raven.GoStr
 
-/-- C11.1a  CREATE succeeds exactly for a non-empty name that is not INBOX (any case) and does not exist yet… -/
+/-- C11.1a  CREATE succeeds exactly for a non-empty name that is not INBOX (any case), is neither `Roles` nor a name below it — the
+part of the hierarchy SELECT reads as role mailboxes, where a personal mailbox could be filled but never opened (repair 817e6d4)
+— and does not exist yet… -/
 theorem create_ok_iff (s : Store) (arg : Bytes) (now : Nat) :
-    (s.create arg now).2 = .ok ↔ createdName arg ≠ [] ∧ toUpper (createdName arg) ≠ inboxName ∧ createdName arg ∉ s.names :=
+    (s.create arg now).2 = .ok ↔ createdName arg ≠ [] ∧ toUpper (createdName arg) ≠ inboxName ∧
+      underRoles (createdName arg) = false ∧ createdName arg ∉ s.names :=
   Mail.create_ok_iff s arg now
 
 /-- C11.1b  …and then adds exactly that name and its missing (non-empty) ancestors; a refused CREATE changes nothing. -/
@@ -72,5 +75,17 @@ theorem presented_subs (s : Store) : s.shownSubs = if s.subs.isEmpty then defaul
 -- non-vacuity
 example : ((Store.init 1).create (b!"x/y/") 2).1.names =
     [(b!"INBOX"), (b!"Sent"), (b!"Drafts"), (b!"Trash"), (b!"Spam"), (b!"x"), (b!"x/y")] := by decide
+
+
+/-- C11.1c  RENAME to `Roles` or to a name below it is refused and changes nothing (a mailbox renamed to `Roles` would take its
+children below it). -/
+theorem rename_refuses_reserved (s : Store) (oa na : Bytes) (now : Nat) (hne : ¬ (trimQuotes oa = [] ∨ trimQuotes na = []))
+    (hr : underRoles (trimSuffix (trimQuotes na) slash) = true) : s.rename oa na now = (s, .no) :=
+  Mail.rename_refuses_roles s oa na now hne hr
+
+-- non-vacuity: the names the harness found, and the folder itself
+example : underRoles (b!"Roles/x@example.com/foo") = true ∧ underRoles (b!"Roles") = true ∧ underRoles (b!"roles/z") = false ∧
+    underRoles (b!"Rolesx") = false := by decide
+
 
 end Raven.Props.C11
